@@ -9,7 +9,7 @@ from .. import core, md, stage, universe as U
 
 PID = "C13"
 
-CADENCES = [(1, 3600), (2, 10), (60, 3600), (3600, 86400)]
+CADENCES = [(1, 3600), (1, 10), (2, 10), (60, 3600), (3600, 86400)]
 SMALL_RATES = [(1, 1), (10, 3), (2, 3), (7, 2), (1000, 1)]
 # metadata rates are not limited to 32-bit numerators: k*d beyond 2^64 and 10 MHz-class integer rates
 BIG_RATES = [(25 * 10**9, 1001), (10**10, 3), (10**7, 1), (25 * 10**6, 1), (3 * 10**7, 1001)]
@@ -55,7 +55,12 @@ def run_job(job):
 
     try:
         wri = drf.DigitalMetadataWriter(mdir, sc, fc, n, d, "m")
-        wri.write(ks, {"v": np.array(ks, dtype=np.uint64)})
+        # two calls on one writer object; for every other job the later half is written first (back-fill)
+        h = len(ks) // 2
+        halves = [ks[:h], ks[h:]] if (j0 + w) % 2 == 0 or h == 0 else [ks[h:], ks[:h]]
+        for part_ks in halves:
+            if part_ks:
+                wri.write(part_ks, {"v": np.array(part_ks, dtype=np.uint64)})
         part["transitions"] += len(ks)
         # on disk: which file holds which group
         where = {}
